@@ -296,6 +296,8 @@ class _TableFormSection(object):
 
   def _parse_section(self, section_name):
     name = self._parse_name(section_name)
+    if not name:
+      raise ConfigParserException("Section '[{}]' does not name its table form, the header should be of the form '[{}:NAME]'".format(section_name, self._section_name_prefix))
     section = self._cfg_parser[section_name]
 
     interpolation = section.get(u"interpolation", u"cubic_spline")
